@@ -79,3 +79,11 @@ impl Random {
         }
     }
 }
+
+/// Verification hook (`--cfg rosu_pp_verif`): the `next_bool` bit buffer.
+#[cfg(rosu_pp_verif)]
+impl Random {
+    pub const fn verif_bit_state(&self) -> (u32, i32) {
+        (self.bit_buf, self.bit_idx)
+    }
+}
